@@ -343,3 +343,52 @@ Example restriction_nonvacuous :
   apex_reachable ex_sub_gap = false /\ in_filter ex_sub_gap (apex ex_sub_gap) = true /\
   count_leaf_tiles ex_sub_gap = Some 0 /\ visit_serial ex_sub_gap = Some [].
 Proof. vm_compute; repeat split; reflexivity. Qed.
+
+(* ======================================================================================
+   Tie by TRANSLATION (besides the correspondence runs): Generated/PyramidSrc.v is produced
+   from toasty/pyramid.py by harness/py2coq.py on every build, and the definitions it contains
+   ([src_pos_parent], [src_pos_children], [src_is_subtile], [src_depth2tiles],
+   [src_tiles_at_depth], [src_next_highest_power_of_2]: the Python functions statement by
+   statement, integers as Z, ValueError as None, loops and recursion on explicit fuel) agree
+   with the hand-written position algebra used by every theorem above, on every input.
+   Proofs in Proofs/PyramidSrcP.v. *)
+From Coq Require Import ZArith.
+From Toasty Require Import Model.Study Generated.PyramidSrc Proofs.PyramidSrcP.
+
+Theorem src_pos_parent_is_model :
+  forall p, src_pos_parent (to_spos p) =
+            option_map (fun r => (to_spos (fst (fst r)), Z.of_N (snd (fst r)), Z.of_N (snd r))) (parent p).
+Proof. exact PyramidSrcP.src_pos_parent_eq. Qed.
+Print Assumptions src_pos_parent_is_model.
+
+Theorem src_pos_children_is_model :
+  forall p, src_pos_children (to_spos p) = Some (map to_spos (children p)).
+Proof. exact PyramidSrcP.src_pos_children_eq. Qed.
+Print Assumptions src_pos_children_is_model.
+
+Theorem src_is_subtile_is_model :
+  forall a b fuel, (pn a - pn b < fuel)%nat ->
+  src_is_subtile fuel (to_spos a) (to_spos b) = is_subtile a b.
+Proof. exact PyramidSrcP.src_is_subtile_eq. Qed.
+Print Assumptions src_is_subtile_is_model.
+
+Theorem src_counts_are_model :
+  forall d, src_depth2tiles (Z.of_nat d) = Some (Z.of_N (depth2tiles d)) /\
+            src_tiles_at_depth (Z.of_nat d) = Some (Z.of_N (tiles_at_depth d)).
+Proof. intros d. split; [apply PyramidSrcP.src_depth2tiles_eq|apply PyramidSrcP.src_tiles_at_depth_eq]. Qed.
+Print Assumptions src_counts_are_model.
+
+Theorem src_next_highest_power_of_2_is_model :
+  forall n r, next_pow2 n = Some r ->
+  src_next_highest_power_of_2 (S (Z.to_nat (Z.log2_up n))) n = Some r.
+Proof. exact PyramidSrcP.src_next_highest_power_of_2_eq. Qed.
+Print Assumptions src_next_highest_power_of_2_is_model.
+
+(* the translated functions run: Pos(3, 5, 2) *)
+Example src_functions_run :
+  src_pos_parent (mkSP 3 5 2) = Some (mkSP 2 2 1, 1%Z, 0%Z) /\
+  src_pos_children (mkSP 1 1 0) = Some [mkSP 2 2 0; mkSP 2 3 0; mkSP 2 2 1; mkSP 2 3 1] /\
+  src_is_subtile 5 (mkSP 3 5 2) (mkSP 1 1 0) = Some true /\
+  src_is_subtile 5 (mkSP 1 1 0) (mkSP 3 5 2) = None /\
+  src_next_highest_power_of_2 10 700 = Some 1024%Z /\ src_depth2tiles 2 = Some 21%Z.
+Proof. vm_compute. repeat split; reflexivity. Qed.
